@@ -9,8 +9,9 @@ RULE = ("files x read options. Files: W = written by fastparquet (two columns of
         "1-3 row groups, nulls placed in none / first / last row group only); F = foreign files from the specpq "
         "writer (optional/required INT32, INT64, BOOLEAN, DOUBLE, UTF8, dictionary-encoded, 1-3 row groups, nulls "
         "in none/first/middle/last row group only, chunk statistics present / absent / partly, v1/v2); H = hive "
-        "datasets with 1-2 partition columns. Options: columns (None, each single, reversed), categories (None, "
-        "list, dict), index (None, False, name), pandas_nulls (True, False), dtypes override. Oracle: "
+        "datasets with 1-2 partition columns; I = frames written with a named index of 10 kinds (ints, floats, "
+        "text, timestamps of several units and time zones, timedelta). Options: columns (None, each single, reversed), categories (None, "
+        "list, dict), index (None, False, name of another column), pandas_nulls (True, False), dtypes override. Oracle: "
         "columns / dtypes / categories / cats / _get_index / count / num_rows / info versus the frame returned; "
         "non-trivial = a read that returned >= 1 row and was compared")
 ASSUMPTIONS = ["dtype compared by kind + width + nullable-extension-ness + category-ness",
@@ -18,6 +19,7 @@ ASSUMPTIONS = ["dtype compared by kind + width + nullable-extension-ness + categ
 
 W_KINDS = ["bool", "int32", "int64", "uint8", "float64", "str_obj", "bytes_obj", "dt_ns", "dt_us_paris", "td_us",
            "cat_str", "cat_int", "Int64", "boolean"]
+I_KINDS = ["int64", "float64", "str_obj", "dt_ns", "dt_us", "dt_ms", "dt_ns_utc", "dt_us_paris", "dt_ns_offset", "td_us"]
 CREATED_BY = "parquet-mr version 1.12.3 (build f8dced182c4c1fbdec6ccb3185537b5a01e6ed6b)"
 
 
@@ -43,6 +45,11 @@ def points(tier):
     for nparts in (1, 2):
         for pk in ("int", "str", "float"):
             pts.append({"f": "H", "nparts": nparts, "pkind": pk})
+    # I: frames written with a named index of every plain kind (incl. tz-aware / non-ns timestamps); the index comes
+    # from the pandas metadata, is dropped (index=False) or another column is chosen (index=name)
+    for k in I_KINDS:
+        for nrg in (1, 2):
+            pts.append({"f": "I", "kind": k, "nrg": nrg})
     return pts
 
 
@@ -77,7 +84,8 @@ def norm_dtype(x):
     if k[0] == "category":
         return ("category", None, False)
     if k[0] in "Mm":
-        return (k[0], k[2][0] if k[2] else None, False)
+        # resolution and time zone both belong to the dtype
+        return (k[0], "%s%s" % (k[2][0], ("," + str(k[2][1])) if k[2][1] else "") if k[2] else None, False)
     if k[0] == "O":
         return ("O", None, False)
     if k[0] in ("S", "U"):
@@ -118,7 +126,7 @@ class Cell:
                 "counts": {"reads": self.reads}, "sig": list(self.sigs.values()) or None, "detail": self.detail}
 
 
-def compare(c, pf_factory, what, datacols, partcols=()):
+def compare(c, pf_factory, what, datacols, partcols=(), index_names=()):
     """all option tuples on one dataset"""
     import numpy as np
     import pandas as pd
@@ -127,7 +135,9 @@ def compare(c, pf_factory, what, datacols, partcols=()):
     for pn in (True, False):
         for cols in col_opts:
             for cats in ("none", "list", "dict"):
-                for index in (None, False):
+                for index in (None, False) + tuple(index_names):
+                    if isinstance(index, str) and cols is not None and index not in cols:
+                        continue
                     c.ctx = {"pandas_nulls": pn, "cols": "all" if cols is None else ("single" if len(cols) == 1 else "reversed"),
                              "categories": cats, "index": str(index)}
                     try:
@@ -180,6 +190,20 @@ def compare(c, pf_factory, what, datacols, partcols=()):
                         want_cols = [x for x in want_cols if x not in m_index]
                         if list(df.index.names) != list(m_index):
                             c.bad("index", "%s: _get_index()=%r, frame index names %r" % (what, m_index, list(df.index.names)))
+                    if isinstance(index, str):
+                        want_cols = [x for x in want_cols if x != index]
+                        if list(df.index.names) != [index]:
+                            c.bad("index", "%s: index=%r requested, frame index names %r" % (what, index, list(df.index.names)))
+                    if index is not False and df.index.nlevels == 1 and df.index.name is not None \
+                            and str(df.index.name) in m_dtypes:
+                        # the index column's predicted dtype must be the dtype of the index actually built
+                        idt = df.index.dtype
+                        pred = norm_dtype(m_dtypes[str(df.index.name)])
+                        act = norm_dtype(idt)
+                        if pred != act:
+                            c.bad("index_dtype", "%s opts=%r: index %s predicted %s %r, read gives %s %r" % (
+                                what, c.ctx, df.index.name, m_dtypes[str(df.index.name)], pred, idt, act),
+                                pred=str(pred[0]) + str(pred[1]), act=str(act[0]) + str(act[1]))
                     if got_cols != [str(x) for x in want_cols]:
                         c.bad("columns", "%s opts=%r: predicted columns %r, frame has %r" % (what, c.ctx, want_cols, got_cols))
                         continue
@@ -204,7 +228,7 @@ def compare(c, pf_factory, what, datacols, partcols=()):
     # dtypes override
     try:
         pf = pf_factory(True)
-        col = list(pf.columns)[0]
+        col = [x for x in pf.columns if x not in (pf._get_index() or [])][0]
         base = pf.dtypes[col]
         k = norm_dtype(base)
         if k[0] in "iu" and not k[2]:
@@ -264,6 +288,27 @@ def run_W(c, p):
             return
         compare(c, lambda pn, path=path: fastparquet.ParquetFile(path, pandas_nulls=pn),
                 "W %s nrg=%d nulls_in=%s v%d %s" % (kind, nrg, where, ver, scheme), ["a", "b"])
+
+
+def run_I(c, p):
+    import os
+    import pandas as pd
+    import fastparquet
+    from mc import alphabets as A
+    from mc.scratch import scratch
+    kind, nrg = p["kind"], p["nrg"]
+    n = 3 * nrg
+    df = pd.DataFrame({"a": A.series("int64", n, "none", 1, "a"), "t": A.series(kind, n, "none", 2, "t"),
+                       "s": A.series("str_obj", n, "none", 0, "s")})
+    df.index = pd.Index(A.series(kind, n, "none", 0, "ix"), name="ix")
+    d = scratch()
+    path = os.path.join(d, "t.parquet")
+    try:
+        fastparquet.write(path, df, row_group_offsets=[3 * i for i in range(nrg)], write_index=True)
+    except Exception:
+        return
+    compare(c, lambda pn, path=path: fastparquet.ParquetFile(path, pandas_nulls=pn),
+            "I index kind %s nrg=%d" % (kind, nrg), ["ix", "a", "t", "s"], index_names=("t", "a"))
 
 
 def run_F(c, p):
